@@ -149,7 +149,13 @@ def main(argv=None) -> int:
 
 
 if __name__ == "__main__":
-    sys.stdout.flush()
-    rc = main()
-    sys.stdout.flush()
+    try:
+        rc = main()
+        sys.stdout.flush()
+    except BrokenPipeError:  # output closed by the reader (e.g. `| head`)
+        rc = 0
+        try:
+            sys.stdout.close()
+        except Exception:
+            pass
     os._exit(rc)
